@@ -24,7 +24,19 @@ import (
 	"time"
 )
 
-const verifDir = "/verif"
+// verifDir: where this copy of the machinery lives (the directory above bin/),
+// so that a snapshot of /verif works on its own files.
+var verifDir = func() string {
+	if v := os.Getenv("VERIF_DIR"); v != "" {
+		return v
+	}
+	if exe, err := os.Executable(); err == nil {
+		if d := filepath.Dir(filepath.Dir(exe)); filepath.Base(filepath.Dir(exe)) == "bin" {
+			return d
+		}
+	}
+	return "/verif"
+}()
 
 type part struct {
 	Engine   string
@@ -347,7 +359,7 @@ func handleViolation(f *found, race bool) string {
 	}
 	path := filepath.Join(rdir, name)
 	f.Source = istats.SourceSHA
-	f.Replay = "/verif/check --replay " + path
+	f.Replay = filepath.Join(verifDir, "check") + " --replay " + path
 	if race {
 		// monitoring pass: re-detection is attempted, not guaranteed
 		in := filepath.Join(scratch, "race-found.json")
